@@ -16,7 +16,7 @@ UnwrapKey == /\ pc = "UnwrapKey"
              /\ UNCHANGED <<cfg, in>>
 \* DecryptBytes: data algorithm, nonce / IV split, padding
 DecryptData == /\ pc = "DecryptData"
-               /\ IF in.sub = "shape" /\ ~(in.shape = "ok" /\ in.alg \in Advertised) THEN Refuse ELSE pc' = "Downstream" /\ UNCHANGED out
+               /\ IF in.sub = "shape" /\ ~(in.shape \in Honest /\ in.alg \in Advertised) THEN Refuse ELSE pc' = "Downstream" /\ UNCHANGED out
                /\ UNCHANGED <<cfg, in>>
 \* what happens to the plaintext: C01 applies as for any assertion
 Downstream == /\ pc = "Downstream" /\ pc' = "done" /\ out' = ModelOut(cfg, in) /\ UNCHANGED <<cfg, in>>
